@@ -17,7 +17,7 @@ import (
 func main() { Main("pair", run) }
 
 func run(c *Ctx) error {
-	c.Rule = "one case = one two-agent run: random topology (1..3 endpoints per side, host or NATed, reachability matrix incl. one-way links and no connectivity), candidates trickled in random order, both agents started (15% in the same role), a lossy phase of 0..3 rounds (each in-flight datagram delivered / dropped / duplicated / delayed at random), then a fair loss-free suffix; 30% with renominations, 20% with a restart of both sides and re-signalling. Emits the two agents' core histories and a pair summary. Non-trivial = a bidirectionally reachable pair exists and both agents reached Connected, or no such pair exists (negative case); distinct = distinct summary lines."
+	c.Rule = "one case = one two-agent run: random topology (1..3 endpoints per side, host or NATed, reachability matrix incl. one-way links and no connectivity), candidates trickled in random order, both agents started (15% in the same role), a lossy phase of 0..3 rounds (each in-flight datagram delivered / dropped / duplicated / delayed at random), then a fair loss-free suffix; a third with late signalling to B (peer-reflexive candidates, later superseded); 40% with renomination enabled, half of those with selective loss of B's checks on one reachable endpoint pair (valid on A first) which is then renominated; 20% with a restart of both sides and re-signalling. Emits the two agents' core histories (judged step by step by the core model), the whole run as a schedule of the two-agent system model (@sys: in-flight count after every operation and both final snapshots compared with Model/TwoAgents.sys_step) and a pair summary. Non-trivial = a bidirectionally reachable pair exists and both agents reached Connected, or no such pair exists (negative case); distinct = distinct summary lines."
 	if c.Replay != "" {
 		// each agent's half of a run is a core history and replays on its own; the summary line is
 		// a function of the two and is not re-run separately
